@@ -383,7 +383,7 @@ func TestVerifC15(t *testing.T) {
 
 func c15Mem(t *testing.T, r *verifkit.Run) {
 	p := c15Profile()
-	n := r.N(400, 8000)
+	n := r.N(500, 8000)
 	for ci := 0; ci < n; ci++ {
 		rng := r.Rand(ci)
 		cfg := gGenConfig(rng, p, fmt.Sprintf("g%d", ci))
